@@ -134,6 +134,23 @@ Section Codec.
       header_corruption_at bs p v.
 End Codec.
 
+(* "written with the block writer" = every Write call returned nil.  Since the writer refuses an empty
+   encoding (fix C16-writer-empty-encoding) this GIVES the first three conjuncts of seq_ok and the
+   non-empty half of `writable`: what remains an assumption of the round-trip theorems is only the 4 GiB
+   bound on one encoded block. *)
+Definition C16_written_is_seq_ok : Prop :=
+  forall (penc : blk -> option str) bs, bs <> [] -> snd (write_all penc bs) = WOk ->
+    ctype_of bs <> [] /\ lenN (ctype_of bs) <= 65535 /\
+    Forall (fun b => exists m, penc b = Some m /\ m <> []) bs.
+
+(* the writer as shipped accepted the empty encoding (frame 00 00 00 00, which the reader reports as
+   a damaged file, losing every later block: c16_msg_nonempty_needed in Properties/Cxx_Audit.v) *)
+Definition C16_unfixed_writer_accepts_empty : Prop :=
+  exists (penc : blk -> option str) st b,
+    penc b = Some [] /\ w_hdr st = true /\
+    writer_write_unfixed penc st b = (mkW true (w_out st ++ [0; 0; 0; 0]), WOk) /\
+    snd (writer_write penc st b) = WErr.
+
 (* ================================================================== what does NOT hold *)
 
 (* Stated at the framing level, for any decoder: a file is a content type and a list of encoded
